@@ -177,6 +177,49 @@ class ChanV:
         self.obj = obj
 
 
+class SparseArr:
+    """large array of scalars: default value plus a dict of written elements (copy-on-write by copy())"""
+    __slots__ = ('n', 'default', 'd')
+
+    def __init__(self, n, default, d=None):
+        self.n, self.default, self.d = n, default, d or {}
+
+    def __len__(self):
+        return self.n
+
+    def __getitem__(self, i):
+        if isinstance(i, slice):
+            a, b, st = i.indices(self.n)
+            if b - a > (1 << 20):
+                raise Unsupported('materialising a huge slice of a sparse array')
+            d, df = self.d, self.default
+            return [d.get(k, df) for k in range(a, b, st)]
+        if i < 0 or i >= self.n:
+            raise IndexError(i)
+        return self.d.get(i, self.default)
+
+    def __setitem__(self, i, v):
+        if isinstance(i, slice):
+            a, b, st = i.indices(self.n)
+            v = list(v)
+            if len(v) != b - a or st != 1:
+                raise Unsupported('resizing slice assignment on sparse array')
+            for k, x in zip(range(a, b), v):
+                self.d[k] = x
+            return
+        self.d[i] = v
+
+    def copy(self):
+        return SparseArr(self.n, self.default, dict(self.d))
+
+    def __iter__(self):
+        raise Unsupported('iteration over a sparse (huge) array')
+
+
+def arr_copy(a):
+    return a.copy() if isinstance(a, SparseArr) else list(a)
+
+
 class Opaque:
     def __init__(self, what):
         self.what = what
